@@ -8,6 +8,7 @@ package props
 // is shared with the implementation under test.
 
 import (
+	"math"
 	"fmt"
 	"unsafe"
 
@@ -237,6 +238,9 @@ func genProgram(r *core.Rand, typ, backing string, o progOpts) *AProg {
 	if typ != "float64" && typ != "float32" && r.Bool(0.3) {
 		p.Magnitude = []string{"A", "B"}[r.Intn(2)]
 	}
+	if (typ == "float64" || typ == "float32") && r.Bool(0.25) {
+		p.Magnitude = "S"
+	}
 	sim := newSim[float64](root)
 	next := 1.0
 	fresh := func(n int) []float64 {
@@ -447,9 +451,34 @@ func newSim[T Num](root []int) *shadowSim[T] {
 func conv[T Num](vals []float64, base T) []T {
 	r := make([]T, len(vals))
 	for i, v := range vals {
-		r[i] = T(v) + base
+		r[i] = mkVal(v, base)
 	}
 	return r
+}
+
+// specialFloats: magnitude mode "S" (float element types): some of the unique counters are replaced by the values whose
+// arithmetic is not that of ordinary numbers - NaN, +Inf, -Inf, -0 (0*NaN is NaN, Inf-Inf is NaN, -0 == +0).
+// It is a package variable set per program run (workers execute one case at a time).
+var specialFloats bool
+
+func mkVal[T Num](x float64, base T) T {
+	if specialFloats {
+		var z T
+		switch any(z).(type) {
+		case float64, float32:
+			switch int(x) % 11 {
+			case 0:
+				return T(math.NaN())
+			case 4:
+				return T(math.Inf(1))
+			case 8:
+				return T(math.Inf(-1))
+			case 5:
+				return T(math.Copysign(0, -1))
+			}
+		}
+	}
+	return T(x) + base
 }
 
 // magBase is the shift applied to the unique counters for p's magnitude mode. cSafe: the program also runs on C-backed
@@ -541,12 +570,12 @@ func (s *shadowSim[T]) apply(op *AOp, tmp **sView[T]) {
 		s.views = append(s.views, c)
 		s.lastNew = c
 	case "set", "set1", "set2", "set3":
-		v.set(op.Loc, T(op.Vals[0])+s.base)
+		v.set(op.Loc, mkVal(op.Vals[0], s.base))
 	case "apply", "apply1":
 		loc := cpInts(op.Loc)
 		for i, x := range op.Vals {
 			loc[op.Dim] = op.Loc[op.Dim] + i*op.St
-			v.set(loc, T(x)+s.base)
+			v.set(loc, mkVal(x, s.base))
 		}
 	case "applyslice":
 		src := srcView(op.Dims)
